@@ -1,21 +1,5 @@
 // ---- C05: expansion of X (don't care) and C (clock) entries in input columns ----
 
-/// abstract row: evaluated entries, source line, whether outputs are read and compared
-ghost struct RowS { entries: Seq<DataEntry>, line: usize, update_output: bool }
-
-spec fn row_view(d: DataEntries) -> RowS { RowS { entries: d.entries@, line: d.line, update_output: d.update_output } }
-
-// [A-derive] #[derive(Clone)] on DataEntries / DataEntry copies every field
-#[verifier::external_body]
-proof fn axiom_data_entries_clone()
-    ensures forall|a: DataEntries, b: DataEntries| call_ensures(DataEntries::clone, (&a,), b) ==> row_view(b) == row_view(a),
-{
-}
-impl Clone for DataEntries {
-    #[verifier::external_body]
-    fn clone(&self) -> (r: Self) { unimplemented!() }
-}
-
 // N7 [A-std]: `xs.iter().enumerate().rev().find_map(f)`: the image of the LAST index whose image is Some
 #[verifier::external_body]
 fn verif_rfind_map_indexed<T, R, F: FnMut((usize, &T)) -> Option<R>>(xs: &Vec<T>, f: F) -> (r: Option<R>)
